@@ -137,6 +137,33 @@ pub struct Bounds {
 
 impl Bounds {
     pub fn for_tier(t: Tier) -> Bounds {
+        let mut b = Self::for_tier_plain(t);
+        // experiment knobs (development only; recorded in the evidence through `bounds`)
+        if std::env::var_os("C09_NOBUSY").is_some() {
+            b.busy = false;
+        }
+        if std::env::var_os("C09_NOTICK").is_some() {
+            b.iv_starts.clear();
+        }
+        if std::env::var_os("C09_NOTIMEOUT").is_some() {
+            b.max_timeouts = 0;
+        }
+        if std::env::var_os("C09_ONEWAKER").is_some() {
+            b.waker_variants = 1;
+        }
+        if let Some(c) = std::env::var("C09_MAXCLOCK").ok().and_then(|s| s.parse().ok()) {
+            b.max_clock = c;
+        }
+        if let Some(c) = std::env::var("C09_MAXALIVE").ok().and_then(|s| s.parse().ok()) {
+            b.max_alive = c;
+        }
+        if let Some(c) = std::env::var("C09_MAXSTATES").ok().and_then(|s| s.parse().ok()) {
+            b.max_states = c;
+        }
+        b
+    }
+
+    fn for_tier_plain(t: Tier) -> Bounds {
         match t {
             Tier::Quick => Bounds {
                 max_clock: 6,
@@ -153,7 +180,7 @@ impl Bounds {
                 max_states: 6_000_000,
             },
             Tier::Thorough => Bounds {
-                max_clock: 8,
+                max_clock: 10,
                 max_alive: 3,
                 max_timeouts: 2,
                 sleep_ds: vec![-1, 0, 1, 2, 3],
@@ -248,7 +275,12 @@ struct Slot {
     deadline: Option<i64>,
     /// generation of the wheel entry observed when the future registered itself (None: refused)
     gen_: Option<u64>,
-    /// reference: expiry observed = created with deadline <= now, or a wake() ran at clock >= deadline
+    /// reference "expiry observed": the timer runtime refused to register the timer (then the future
+    /// must be ready; whether the refusal was legitimate is the never-early oracle's business at
+    /// the poll), or a wake() ran at clock >= deadline. A timer that was registered although its
+    /// deadline is not in the future is NOT required to be ready before the next wake(): the
+    /// statement only demands completion "once the deadline has passed", and min_timeout() == 0
+    /// makes the very next loop iteration fire it.
     expired: bool,
     registered: Option<u8>,
     wakers: [(Arc<CountWaker>, Waker); 2],
@@ -260,7 +292,6 @@ struct Iv {
     start: i64,
     period: i64,
     first_done: bool,
-    last: Option<i64>,
 }
 
 #[derive(Debug, Clone)]
@@ -285,10 +316,10 @@ pub const EVENTS: &[&str] = &[
     "two_equal_deadlines_expired_in_one_wake", // 4
     "timeout_ok",                         // 5
     "timeout_elapsed",                    // 6
-    "timeout_tie_inner_wins",             // 7
+    "timeout_tie_deadline_and_inner_ready_in_one_iteration", // 7
     "timeout_elapsed_at_creation_deadline_now", // 8
     "interval_tick_k_ge_2",               // 9
-    "interval_tick_after_missed_period",  // 10
+    "interval_tick_started_on_aligned_instant", // 10
     "drop_pending_timer",                 // 11
     "drop_expired_unpolled_timer",        // 12
     "loop_returned_early",                // 13
@@ -457,7 +488,8 @@ impl World {
                 v.push(Op::Drop(i as u8));
             }
         }
-        if b.busy && clock < b.max_clock {
+        // with an empty wheel Busy is indistinguishable from Loop(1) (wake() returns at once)
+        if b.busy && clock < b.max_clock && self.min_timeout().is_some() {
             v.push(Op::Busy);
         }
         let maxd = match self.min_timeout() {
@@ -479,6 +511,12 @@ impl World {
     /// Applies one operation to the real object, checks the transition oracles and the state
     /// invariants.
     pub fn apply(&mut self, op: Op) -> Result<Step, Vio> {
+        self.apply_with(op, true)
+    }
+
+    /// `check_invariants = false` is used for the prefix of a replay only: those states already
+    /// passed `check_state` when they were discovered (the transition oracles still run).
+    pub fn apply_with(&mut self, op: Op, check_invariants: bool) -> Result<Step, Vio> {
         let mut st = match op {
             Op::Sleep(d) => self.op_sleep(d)?,
             Op::Timeout(d, r) => self.op_timeout(d, r)?,
@@ -491,7 +529,9 @@ impl World {
             }
             Op::Loop(d) => self.op_loop(d)?,
         };
-        st.events |= self.check_state()?;
+        if check_invariants {
+            st.events |= self.check_state()?;
+        }
         Ok(st)
     }
 
@@ -515,7 +555,7 @@ impl World {
             kind: Kind::Sleep,
             deadline: Some(deadline),
             gen_,
-            expired: deadline <= clock,
+            expired: gen_.is_none(),
             registered: None,
             wakers: Self::mk_wakers(),
             inner_waker: None,
@@ -553,7 +593,7 @@ impl World {
             kind: Kind::Timeout { ready_at: clock + r as i64, val },
             deadline: Some(deadline),
             gen_,
-            expired: deadline <= clock,
+            expired: gen_.is_none(),
             registered: None,
             wakers: Self::mk_wakers(),
             inner_waker: Some(cell),
@@ -575,7 +615,6 @@ impl World {
                 start: clock + s as i64,
                 period: p as i64,
                 first_done: false,
-                last: None,
             });
             self.note(|| format!("interval_at(T{:+}, {p} ticks) at clock T{clock:+}", clock + s as i64));
         }
@@ -626,6 +665,7 @@ impl World {
         let clock = self.clock();
         let before = self.wheel();
         let mut ev = 0u32;
+        let mut just_started = false;
         // a tick's state machine starts at its first poll: the specification of its deadline
         if let Kind::Tick { started: false, .. } = slot.kind {
             let iv = self.iv.as_ref().unwrap();
@@ -638,7 +678,7 @@ impl World {
             };
             slot.kind = Kind::Tick { started: true, first, started_at: clock };
             slot.deadline = Some(deadline);
-            slot.expired = deadline <= clock;
+            just_started = true;
         }
         let waker = slot.wakers[w].1.clone();
         let mut cx = Context::from_waker(&waker);
@@ -662,6 +702,9 @@ impl World {
             if let Some(g) = self.new_entry(&before, "polling")? {
                 slot.gen_ = Some(g);
             }
+        }
+        if just_started {
+            slot.expired = slot.gen_.is_none();
         }
         let deadline = slot.deadline.unwrap();
         let id = slot.id;
@@ -689,7 +732,7 @@ impl World {
                         if slot.expired {
                             return vio(
                                 format!("model:always-fires:sleep-pending-after-expiry:{peers}"),
-                                format!("sleep #{id} with deadline T{deadline:+} is still Pending at clock T{clock:+} although its deadline was due at creation or a wake() ran at or after it"),
+                                format!("sleep #{id} with deadline T{deadline:+} is still Pending at clock T{clock:+} although the timer runtime refused to register it (deadline not in the future) or a wake() ran at or after its deadline"),
                             );
                         }
                         if clock >= deadline {
@@ -708,9 +751,6 @@ impl World {
                             return vio("model:timeout:ok-with-wrong-value", format!("timeout #{id} returned Ok({v}) but the inner future (ready from T{ready_at:+}, value {val}) cannot have produced it at clock T{clock:+}"));
                         }
                         ev |= 1 << 5;
-                        if ready_at == deadline && slot.expired && slot.gen_.is_some() {
-                            ev |= 1 << 7;
-                        }
                     }
                     Poll::Ready(Out::Elapsed) => {
                         resk = 5;
@@ -739,7 +779,7 @@ impl World {
                         if slot.expired {
                             return vio(
                                 format!("model:always-fires:timeout-pending-after-expiry:{peers}"),
-                                format!("timeout #{id} with deadline T{deadline:+} is still Pending at clock T{clock:+} although its deadline was due at creation or a wake() ran at or after it (inner not ready before T{ready_at:+})"),
+                                format!("timeout #{id} with deadline T{deadline:+} is still Pending at clock T{clock:+} although the timer runtime refused to register it (deadline not in the future) or a wake() ran at or after its deadline (inner not ready before T{ready_at:+})"),
                             );
                         }
                         if clock >= deadline {
@@ -758,46 +798,38 @@ impl World {
                         let Some(vt) = v.rel_ticks() else {
                             return vio("model:interval:misaligned", format!("tick #{id} returned {v:?}, not a whole tick although start and period are"));
                         };
-                        if vt < iv.start || (vt - iv.start) % iv.period != 0 {
+                        if (vt - iv.start).rem_euclid(iv.period) != 0 {
                             return vio(
                                 "model:interval:misaligned",
                                 format!("tick #{id} returned T{vt:+}: not start T{:+} + k*{} (tick() first polled at T{started_at:+})", iv.start, iv.period),
                             );
                         }
-                        if clock < vt || clock < deadline {
+                        if clock < vt {
                             return vio("model:never-early:tick-ready-before-its-instant", format!("tick #{id} returned T{vt:+} (expected instant T{deadline:+}) at clock T{clock:+}"));
                         }
-                        if first && vt != iv.start {
-                            return vio("model:interval:first-tick-not-at-start", format!("first tick #{id} returned T{vt:+}, start is T{:+}", iv.start));
-                        }
-                        if let Some(last) = iv.last {
-                            if vt <= last {
-                                return vio("model:interval:tick-not-increasing", format!("tick #{id} returned T{vt:+} after an earlier tick returned T{last:+}"));
-                            }
-                        }
-                        if !first && !(vt - iv.period <= started_at && started_at < vt) {
+                        // `deadline` is the specification: start for the first tick, else the smallest
+                        // start + k*period strictly after the instant tick() was first polled. This
+                        // implies vt >= start and strictly increasing tick values.
+                        if vt != deadline {
                             return vio(
-                                "model:interval:not-the-next-instant",
-                                format!("tick #{id} started at T{started_at:+} returned T{vt:+}; the next instant of start T{:+} period {} is T{deadline:+}", iv.start, iv.period),
+                                if first { "model:interval:first-tick-not-at-start" } else { "model:interval:not-the-next-instant" },
+                                format!("tick #{id} started at T{started_at:+} returned T{vt:+}; expected T{deadline:+} (start T{:+}, period {}, first tick: {first})", iv.start, iv.period),
                             );
                         }
                         if (vt - iv.start) / iv.period >= 2 {
                             ev |= 1 << 9;
                         }
-                        if let Some(last) = iv.last {
-                            if vt - last > iv.period {
-                                ev |= 1 << 10;
-                            }
+                        if !first && (started_at - iv.start).rem_euclid(iv.period) == 0 {
+                            ev |= 1 << 10;
                         }
                         iv.first_done = true;
-                        iv.last = Some(vt);
                     }
                     Poll::Pending => {
                         resk = 2;
                         if slot.expired {
                             return vio(
                                 format!("model:always-fires:tick-pending-after-expiry:{peers}"),
-                                format!("tick #{id} waiting for T{deadline:+} is still Pending at clock T{clock:+} although that instant was due when it started or a wake() ran at or after it"),
+                                format!("tick #{id} waiting for T{deadline:+} is still Pending at clock T{clock:+} although the timer runtime refused to register it or a wake() ran at or after that instant"),
                             );
                         }
                         if clock >= deadline {
@@ -878,6 +910,13 @@ impl World {
             if s.gen_.is_some() && !s.expired && clock >= deadline {
                 s.expired = true;
                 newly.push((s.id, deadline));
+                if let Kind::Timeout { ready_at, .. } = s.kind {
+                    // (evaluated here, not at the poll: merged states forget the exact times of a
+                    // timeout that is both expired and ready)
+                    if ready_at == deadline {
+                        ev |= 1 << 7;
+                    }
+                }
                 match s.registered {
                     Some(w) => {
                         if after[w as usize] <= b[w as usize] {
@@ -984,36 +1023,54 @@ impl World {
             None => out.push(0),
             Some(iv) => {
                 out.push(1);
-                out.push(iv.start as u8);
+                // after the first tick the code (and the oracle) use `start` only through
+                // (now - start) % period with now >= start, i.e. through start mod period
+                out.push(if iv.first_done { iv.start.rem_euclid(iv.period) as u8 } else { iv.start as u8 });
                 out.push(iv.period as u8);
                 out.push(iv.first_done as u8);
-                out.push(iv.last.map_or(0x7f, |l| l as u8));
             }
         }
-        // alive futures: (wheel position | 255, descriptor)
+        // alive futures: (wheel position | 255, descriptor). Abstractions (each one an automorphism or
+        // a provably unobservable attribute):
+        //  * the two wakers of a future are interchangeable (swapping them swaps Poll(i,0)/Poll(i,1)),
+        //    so only "a waker is registered" and "the wheel entry holds exactly that waker" are kept;
+        //  * once the expiry of a timer was observed AND the real wheel no longer holds its entry, its
+        //    deadline and waker can never be looked at again (the next poll returns Ready and the
+        //    future is dropped; clock >= deadline stays true because the clock is monotonic);
+        //  * an inner future that is already ready makes the next poll return Ok whatever its exact
+        //    ready time; an expired timeout whose inner is not ready returns Elapsed whatever it is;
+        //  * a started tick's `first`/`started_at` are functions of the interval state and its
+        //    deadline (the verdict "is the next instant" depends on started_at only through it).
         let mut descs: Vec<[u8; 8]> = Vec::with_capacity(self.slots.len());
         for s in self.slots.iter().flatten() {
             let pos = s.gen_.and_then(|g| wheel.iter().position(|(_, wg, _)| *wg == g)).map_or(255u8, |p| p as u8);
-            let (k, a, b) = match s.kind {
-                Kind::Sleep => (0u8, 0u8, 0u8),
-                Kind::Timeout { ready_at, .. } => (1, ready_at as u8, 0),
-                Kind::Tick { started, first, started_at } => (2, started as u8 | (first as u8) << 1, if started { started_at as u8 } else { 0 }),
+            let gone = s.expired && pos == 255;
+            let (k, a) = match s.kind {
+                Kind::Sleep => (0u8, 0u8),
+                Kind::Timeout { ready_at, .. } => (1, if ready_at <= clock { 0x70 } else if gone { 0x71 } else { ready_at as u8 }),
+                Kind::Tick { started, .. } => (2, started as u8),
             };
             // waker class of the wheel entry as seen in the real object
             let wclass = match pos {
                 255 => 9u8,
-                p => match &wheel[p as usize].2 {
-                    None => 0,
-                    Some(w) if w.will_wake(&s.wakers[0].1) => 1,
-                    Some(w) if w.will_wake(&s.wakers[1].1) => 2,
-                    Some(_) => 3,
+                p => match (&wheel[p as usize].2, s.registered) {
+                    (None, _) => 0,
+                    (Some(w), Some(r)) if w.will_wake(&s.wakers[r as usize].1) => 1,
+                    (Some(_), _) => 2,
                 },
             };
             let wdead = match pos {
                 255 => 0x7f,
-                p => wheel[p as usize].0.rel_ticks().map_or(0x7e, |t| t as u8),
+                p => wheel[p as usize].0.rel_ticks().map_or(0x7e, |t| if t <= clock { 0x7c } else { t as u8 }),
             };
-            descs.push([pos, k, s.deadline.map_or(0x7f, |d| d as u8), a, b, s.expired as u8 | (s.gen_.is_some() as u8) << 1, s.registered.map_or(9, |r| r) | wclass << 4, wdead]);
+            //  * an unexpired timer whose deadline is <= clock ("due": the clock passed it without a
+            //    wake()) behaves the same whatever the exact deadline: wake() removes every key
+            //    <= now, min_timeout() saturates to zero, cancel() goes by key, and "never early"
+            //    holds from now on; the relative wheel order is kept through `pos`.
+            let due = |d: i64| if d <= clock { 0x7c } else { d as u8 };
+            let deadline = if gone { 0x7d } else { s.deadline.map_or(0x7f, due) };
+            let registered = if gone { 0 } else { s.registered.is_some() as u8 };
+            descs.push([pos, k, deadline, a, 0, s.expired as u8 | ((s.gen_.is_some() && !gone) as u8) << 1, registered | wclass << 4, wdead]);
         }
         descs.sort_unstable();
         out.push(descs.len() as u8);
@@ -1080,22 +1137,51 @@ struct Frontier {
 fn rebuild(b: &Bounds, hist: &[Op]) -> World {
     let mut w = World::new(b.max_alive);
     for (k, op) in hist.iter().enumerate() {
-        if let Err(v) = w.apply(*op) {
+        if let Err(v) = w.apply_with(*op, false) {
             vcore::machinery_error(&format!("NONDETERMINISM: replaying {} failed at step {k} with {}: {}", hist_text(hist), v.key, v.detail));
         }
     }
     w
 }
 
+/// The configurations explored per tier: the main one, and (thorough) a second one with four
+/// timers alive over a reduced alphabet (sleeps and interval only).
+pub fn configs(tier: Tier) -> Vec<(&'static str, Bounds)> {
+    let main = Bounds::for_tier(tier);
+    let mut v = vec![("A: three timers alive, full alphabet", main.clone())];
+    if tier == Tier::Thorough && std::env::var_os("C09_ONLY_MAIN").is_none() {
+        v.push((
+            "B: four timers alive, sleeps and interval only",
+            Bounds {
+                max_clock: 6,
+                max_alive: 4,
+                max_timeouts: 0,
+                iv_periods: vec![2],
+                ..main
+            },
+        ));
+    }
+    v
+}
+
 pub fn run(report: &Report, tier: Tier) {
-    let b = Bounds::for_tier(tier);
-    report.extra("bounds", b.to_json());
+    let cfgs = configs(tier);
+    report.extra("bounds", Value::Object(cfgs.iter().map(|(n, b)| (n.to_string(), b.to_json())).collect()));
     report.rule(
         "explicit-state BFS to the fixpoint: every enabled operation (Sleep/Timeout/Tick/Poll/Drop/Busy/Loop(delta), see bounds) is applied to every distinct canonical state; each transition is executed on a fresh REAL TimerRuntime + real Sleep/Timeout/Interval futures (transplanted source, virtual clock) by replaying the state's history; states = distinct canonical observations, transitions = operations executed from distinct states, evaluations = transitions checked against the oracles; distinct_nontrivial = distinct (operation kind, result, clock-deadline) signatures; traces_validated_against_impl = maximal traces of the reduced space replayed on the real compio_runtime::Runtime in real time",
     );
     for &e in MUST_REACH {
         report.must_reach(EVENTS[e]);
     }
+    let mut stats = Vec::new();
+    for (i, (name, b)) in cfgs.iter().enumerate() {
+        stats.push(run_config(report, name, b, i == 0));
+    }
+    report.extra("model", Value::Array(stats));
+}
+
+fn run_config(report: &Report, name: &str, b: &Bounds, with_samples: bool) -> Value {
+    let b = b.clone();
     let t0 = std::time::Instant::now();
 
     let mut nodes: Vec<Node> = vec![Node { parent: 0, op: Op::Busy }];
@@ -1231,7 +1317,7 @@ pub fn run(report: &Report, tier: Tier) {
     }
     let max_depth = if capped { depth } else { depth.saturating_sub(1) };
     if capped {
-        report.cap_hit(&format!("model BFS stopped at {} states (cap); levels fully expanded: {}", seen.len(), depth.saturating_sub(1)));
+        report.cap_hit(&format!("model BFS [{name}] stopped at {} states (cap); levels fully expanded: {}", seen.len(), depth.saturating_sub(1)));
     }
     report.add_states(seen.len() as u64);
     report.add_transitions(transitions);
@@ -1245,25 +1331,23 @@ pub fn run(report: &Report, tier: Tier) {
     for s in sigs.into_inner().unwrap() {
         report.outcome(format!("model|{}", sig_text(s)));
     }
-    report.extra(
-        "model",
-        json!({
-            "states": seen.len(),
-            "transitions": transitions,
-            "max_depth": max_depth,
-            "fixpoint_reached": !capped,
-            "level_sizes": level_sizes,
-            "replayed_operation_applications": replayed_steps,
-            "wall_s": t0.elapsed().as_secs_f64(),
-        }),
-    );
+    let stat = json!({
+        "config": name,
+        "states": seen.len(),
+        "transitions": transitions,
+        "max_depth": max_depth,
+        "fixpoint_reached": !capped,
+        "level_sizes": level_sizes,
+        "replayed_operation_applications": replayed_steps,
+        "wall_s": t0.elapsed().as_secs_f64(),
+    });
     // samples: the deepest few histories with their step-by-step observations
-    for h in sample_hist.iter().rev().take(3) {
+    for h in sample_hist.iter().rev().take(if with_samples { 3 } else { 0 }) {
         let n = narrate(&b, h);
         report.sample(6, || json!({"model_history": hist_text(h), "observations": n}));
     }
     println!(
-        "C09 model: states={} transitions={} max_depth={} fixpoint={} replayed_ops={} wall={:.1}s",
+        "C09 model [{name}]: states={} transitions={} max_depth={} fixpoint={} replayed_ops={} wall={:.1}s",
         seen.len(),
         transitions,
         max_depth,
@@ -1271,6 +1355,7 @@ pub fn run(report: &Report, tier: Tier) {
         replayed_steps,
         t0.elapsed().as_secs_f64()
     );
+    stat
 }
 
 /// Re-executes a history with logging on; returns the step-by-step observations.
